@@ -77,7 +77,8 @@ def requests(tier, seed):
                     for m1, m2 in ((0, 1), (-1, 1), (2, 0), (1, 2), (nc + 1, 1), (nc, nc), (nc, 1), (1, 1)):
                         reqs.append(blank(rule, **dict(base, m1=m1, m=m2, ballots=good_ballots(rng, cands))))
                 if rule == "Borda":
-                    for vec in ([3, 2, 1], [1, 1, 1], [2, 2, 1], [1, F(3, 2)], [2, 1, F(3, 2)], [-1], [3, 2, F(-1, 2)], [0, 0], [F(1, 2), 1], [5]):
+                    for vec in ([3, 2, 1], [1, 1, 1], [2, 2, 1], [1, F(3, 2)], [2, 1, F(3, 2)], [-1], [3, 2, F(-1, 2)], [0, 0], [F(1, 2), 1], [5],
+                                [5, 4, 3, 2, 1, 7], [5, 4, 3, 2, 1, 0, -1], [5, 4, 3, 2, 1, 1], [9, 8, 7, 6, 5, 4, 3, 2, 1]):
                         reqs.append(blank(rule, **dict(base, m=1, vec=[rat(F(x)) for x in vec], ballots=good_ballots(rng, cands))))
             for rule in ("validate_score_vector", "score_profile_from_rankings"):
                 for vec in ([3, 2, 1], [2, 2], [1, 2], [2, 1, F(3, 2)], [-1], [1, F(-1, 2)], [0], [F(1, 2), F(1, 2), F(1, 3)]):
